@@ -266,5 +266,19 @@ func checkOneWriteOneRead(c *Ctx, r *Report) {
 			}
 		})
 		r.Check(ok, c.FnName(send)+"|write-then-read", send.Pos(), "one write then one read", why)
+		// ... and Send is the only place that touches the socket: a read anywhere else (a drain,
+		// a peek) lands in the receive buffer the accepted reply's payload still points into, or
+		// swallows the reply the next command is waiting for; a write anywhere else is a datagram
+		// outside every rule about transmissions
+		inSend := map[ssa.Instruction]bool{}
+		viewInstrs(send, func(in ssa.Instruction) { inSend[in] = true })
+		for _, fn := range c.LibFuncs() {
+			fn := fn
+			rawInstrs(fn, false, func(in ssa.Instruction) {
+				if (isCallTo(in, sockReads...) || isCallTo(in, sockWrites...)) && !inSend[in] {
+					r.Bad(c.FnName(fn)+"|socket I/O outside Send", in.Pos(), "the socket is read or written outside transport.Send: datagrams are consumed or produced behind the back of the one-request-one-reply exchange (a reply already accepted can be overwritten in the shared receive buffer before its body is decoded)")
+				}
+			})
+		}
 	}
 }
